@@ -38,7 +38,7 @@ Print Assumptions C07_finished_history.
     the per-thread op lists, each thread's order kept) ends at start + sum of all deltas mod
     2^64; nothing is lost, length and status untouched.
     PARTIAL: the statement is about the interleaving semantics in which each inc/dec is ONE
-    indivisible step.  That AtomicU64::fetch_add / fetch_sub (src/state.rs:599, 603) are
+    indivisible step.  That AtomicU64::fetch_add / fetch_sub (src/state.rs:606, 610) are
     indivisible is an assumption about std/hardware, not a theorem; a load-then-store
     implementation (seeded C07-1) satisfies this theorem's model and is caught only by the
     16-thread stress of the harness. *)
